@@ -1,3 +1,136 @@
+(* U32sTryFromNow.v - what can be said about `TryFrom<u128> for U32s<N>` and the width-0 conversions on the tree as it
+   is NOW.  Everything here is stated about the regenerated guard gen/U32sGen.v:tryfrom_u128_rejects.
+
+   Two blocks.  Exactly one of them compiles against a given tree:
+     [CURRENT]  the pinned tree: the N = 3 arm compares with u64::MAX * u32::MAX  ->  refutation + the exact gap
+     [FIXED]    after the guard of the N = 3 arm is repaired (any expression equal to 2^96 - 1): the full theorem
+   To switch: comment out the CURRENT block, uncomment the FIXED block (here and in props/C19.v). *)
 From Coq Require Import ZArith Bool List Lia.
 From TF Require Import Word BFieldGen U32sGen U32s U32sSpec U32sProofs.
+Import ListNotations.
 Open Scope Z_scope.
+Ltac Zify.zify_post_hook ::= Z.div_mod_to_equations.
+
+(* normalisation shared by both blocks: literals for the powers of two, Word operators unfolded *)
+Ltac norm_guard :=
+  unfold wmul, wadd, wsub, wshl, wshr, ucast, wnot, wrap, mul_ok, add_ok, sub_ok, shift_ok in *;
+  change (2 ^ 128) with 340282366920938463463374607431768211456 in *;
+  change (2 ^ 96) with 79228162514264337593543950336 in *;
+  change (2 ^ 64) with 18446744073709551616 in *;
+  change (2 ^ 32) with 4294967296 in *;
+  change (T 1) with 4294967296 in *;
+  change (T 2) with 18446744073709551616 in *;
+  change (T 3) with 79228162514264337593543950336 in *.
+(* evaluate the closed constant a guard compares `v` with (whatever expression the source uses for it) *)
+Ltac close_consts v :=
+  repeat match goal with
+         | |- context [Z.gtb v ?c] => progress (let c' := eval vm_compute in c in change c with c')
+         | |- context [Z.geb v ?c] => progress (let c' := eval vm_compute in c in change c with c')
+         | |- context [Z.ltb v ?c] => progress (let c' := eval vm_compute in c in change c with c')
+         | |- context [Z.leb v ?c] => progress (let c' := eval vm_compute in c in change c with c')
+         | |- context [Z.gtb ?c v] => progress (let c' := eval vm_compute in c in change c with c')
+         | |- context [Z.geb ?c v] => progress (let c' := eval vm_compute in c in change c with c')
+         | |- context [Z.ltb ?c v] => progress (let c' := eval vm_compute in c in change c with c')
+         | |- context [Z.leb ?c v] => progress (let c' := eval vm_compute in c in change c with c')
+         end.
+Ltac split_cmp :=
+  rewrite ?Z.gtb_ltb, ?Z.geb_leb;
+  repeat match goal with
+         | |- context [Z.ltb ?a ?b] => destruct (Z.ltb_spec a b)
+         | |- context [Z.leb ?a ?b] => destruct (Z.leb_spec a b)
+         | |- context [Z.eqb ?a ?b] => destruct (Z.eqb_spec a b)
+         end;
+  cbn [andb orb negb]; split; intros; try discriminate; try reflexivity; try lia.
+
+(* no unchecked operator inside a guard expression overflows (same behaviour in release and checked builds) *)
+Theorem tryfrom_guards_ok N v :
+  tryfrom_u64_rejects_ok N v = true /\ tryfrom_u128_rejects_ok N v = true.
+Proof.
+  unfold tryfrom_u64_rejects_ok, tryfrom_u128_rejects_ok. split; [reflexivity|].
+  repeat match goal with |- context [Z.eqb ?a ?b] => destruct (Z.eqb_spec a b) end; reflexivity.
+Qed.
+
+(* arms N = 1, 2 and N >= 4 are exact on every tree *)
+Theorem tryfrom_u128_guard_exact_not3 N v : N <> 0%nat -> N <> 3%nat -> 0 <= v < 2 ^ 128 ->
+  tryfrom_u128_rejects (Z.of_nat N) v = true <-> ~ u32s_fits N v.
+Proof.
+  intros HN H3 Hv. rewrite fits_T. unfold tryfrom_u128_rejects.
+  destruct N as [|[|[|[|N]]]]; try contradiction.
+  - change (Z.of_nat 1) with 1. cbn [Z.eqb Pos.eqb andb]. norm_guard. split_cmp.
+  - change (Z.of_nat 2) with 2. cbn [Z.eqb Pos.eqb andb]. norm_guard. split_cmp.
+  - pose proof (T_ge_128 (S (S (S (S N)))) ltac:(lia)).
+    repeat match goal with |- context [Z.eqb ?a ?b] => destruct (Z.eqb_spec a b); try lia end.
+    cbn [andb]. split; [discriminate|]. intros; lia.
+Qed.
+
+(* width 0: the value 0 fits, the conversions do not succeed (recorded finding, not repaired) *)
+Theorem try_from_u64_width0_refuted : exists v, 0 <= v < 2 ^ 64 /\ u32s_fits 0 v /\ u32s_try_from_u64 0 v = Rej.
+Proof. exists 0. split; [split; [lia|reflexivity]|]. split; [exact width0_zero_fits|reflexivity]. Qed.
+Theorem try_from_u128_width0_refuted : exists v, 0 <= v < 2 ^ 128 /\ u32s_fits 0 v /\ u32s_try_from_u128 0 v = Rej.
+Proof. exists 0. split; [split; [lia|reflexivity]|]. split; [exact width0_zero_fits|reflexivity]. Qed.
+Theorem from_u32_width0_refuted : exists n, 0 <= n < 2 ^ 32 /\ u32s_fits 0 n /\ u32s_from_u32 0 n = None.
+Proof. exists 0. split; [split; [lia|reflexivity]|]. split; [exact width0_zero_fits|reflexivity]. Qed.
+
+(* ======================================================================================== [CURRENT] begin *)
+Definition BOUND3_NOW : Z := 18446744073709551615 * 4294967295.    (* u64::MAX * u32::MAX = 2^96 - 2^64 - 2^32 + 1 *)
+
+(* the N = 3 arm of the pinned tree *)
+Lemma tryfrom_u128_guard3_now v : tryfrom_u128_rejects 3 v = (BOUND3_NOW <? v).
+Proof.
+  unfold tryfrom_u128_rejects. cbn [Z.eqb Pos.eqb andb]. rewrite Z.gtb_ltb.
+  assert (E : wmul 128 18446744073709551615 4294967295 = BOUND3_NOW) by (vm_compute; reflexivity).
+  rewrite E. destruct (BOUND3_NOW <? v); reflexivity.
+Qed.
+
+(* refutation: 2^96 - 1 fits three limbs and is rejected *)
+Theorem try_from_u128_refuted_now :
+  exists v, 0 <= v < 2 ^ 128 /\ u32s_fits 3 v /\ u32s_try_from_u128 3 v = Rej.
+Proof.
+  exists (2 ^ 96 - 1). split; [split; [vm_compute; discriminate|reflexivity]|].
+  split; [split; [vm_compute; discriminate|reflexivity]|reflexivity].
+Qed.
+
+(* the exact extent of the defect: every v with u64::MAX * u32::MAX < v < 2^96 fits and is rejected ... *)
+Theorem try_from_u128_gap_now v : BOUND3_NOW < v < 2 ^ 96 ->
+  u32s_fits 3 v /\ u32s_try_from_u128 3 v = Rej.
+Proof.
+  intros Hv. unfold BOUND3_NOW in Hv. split.
+  - rewrite fits_T. norm_guard. lia.
+  - unfold u32s_try_from_u128. change (Z.of_nat 3) with 3. rewrite tryfrom_u128_guard3_now.
+    destruct (Z.ltb_spec BOUND3_NOW v) as [_|H]; [reflexivity|]. unfold BOUND3_NOW in H. lia.
+Qed.
+
+(* ... and outside that gap (and for every other N >= 1) the conversion is exact *)
+Theorem try_from_u128_spec_now N v : N <> 0%nat -> 0 <= v < 2 ^ 128 ->
+  (N = 3%nat -> v <= BOUND3_NOW \/ 2 ^ 96 <= v) ->
+  (u32s_fits N v -> exists r, u32s_try_from_u128 N v = Done r /\ u32s_wf N r /\ u32s_value r = v) /\
+  (~ u32s_fits N v -> u32s_try_from_u128 N v = Rej).
+Proof.
+  intros HN Hv H3. apply try_from_u128_of_guard; [lia|].
+  destruct (Nat.eq_dec N 3) as [->|Hn3]; [|apply tryfrom_u128_guard_exact_not3; auto].
+  specialize (H3 eq_refl). change (Z.of_nat 3) with 3. rewrite tryfrom_u128_guard3_now, fits_T.
+  unfold BOUND3_NOW in *. norm_guard. split_cmp.
+Qed.
+(* ======================================================================================== [CURRENT] end *)
+
+(* ======================================================================================== [FIXED] begin
+Lemma tryfrom_u128_guard3_fixed v : 0 <= v < 2 ^ 128 ->
+  tryfrom_u128_rejects 3 v = true <-> ~ u32s_fits 3 v.
+Proof.
+  intros Hv. rewrite fits_T. unfold tryfrom_u128_rejects. cbn [Z.eqb Pos.eqb andb]. close_consts v. norm_guard. split_cmp.
+Qed.
+
+Theorem tryfrom_u128_guard_exact N v : N <> 0%nat -> 0 <= v < 2 ^ 128 ->
+  tryfrom_u128_rejects (Z.of_nat N) v = true <-> ~ u32s_fits N v.
+Proof.
+  intros HN Hv. destruct (Nat.eq_dec N 3) as [->|Hn3]; [|apply tryfrom_u128_guard_exact_not3; auto].
+  change (Z.of_nat 3) with 3. apply tryfrom_u128_guard3_fixed. exact Hv.
+Qed.
+
+Theorem try_from_u128_spec N v : N <> 0%nat -> 0 <= v < 2 ^ 128 ->
+  (u32s_fits N v -> exists r, u32s_try_from_u128 N v = Done r /\ u32s_wf N r /\ u32s_value r = v) /\
+  (~ u32s_fits N v -> u32s_try_from_u128 N v = Rej).
+Proof.
+  intros HN Hv. apply try_from_u128_of_guard; [lia|]. apply tryfrom_u128_guard_exact; auto.
+Qed.
+   ======================================================================================== [FIXED] end *)
